@@ -17,11 +17,12 @@ from . import ir, engines
 from .engines import key
 
 STRUCT_FIELDS = ("used", "sign", "dp")
+PT_FIELDS = ("x", "y", "z", "t", "coord")
 # public operations that read (only) these fields of a struct handle given at a const position; any other public
 # bn_* operation reads all fields of its const operands.  Static helpers are not counted (see the module comment).
 READER_FIELDS = {"bn_sign": ("sign",), "bn_is_zero": ("used", "dp"), "bn_is_even": ("used", "dp"), "bn_bits": ("used", "dp"),
                  "bn_get_bit": ("used", "dp"), "bn_cmp_abs": ("used", "dp"), "bn_ham": ("used", "dp"), "bn_get_dig": ("dp",)}
-COPY = re.compile(r"^(bn|fp\d*|fb\d*|dv)_copy(_sec|_cond)?$")
+COPY = re.compile(r"^(bn|fp\d*|fb\d*|dv|ep\d*|eb|ed)_copy(_sec|_cond)?$")
 NO_WRITE = re.compile(r"^(bn_grow|bn_null|fp_null|fb_null|bn_new\w*|fp_new|fb_new|bn_make|bn_init|bn_free|fp_free|fb_free|bn_clean)$")
 
 
@@ -36,6 +37,9 @@ def handle_kind(fn, v):
     m = re.match(r"^(fp\d+|fb\d+)_t\b", t)
     if m:
         return "tower", m.group(1) + "_t"
+    # point structures (ep_t, eb_t, ed_t) are deliberately not handles of ALIAS-RW: a survey produced some 250 reports in
+    # src/epx alone, almost all through precomputation tables (arrays of points) that no caller passes as the output;
+    # the rule would not be exact there.  OUT-RBW below covers the output side of the point routines.
     return None, None
 
 
@@ -48,7 +52,7 @@ def access(fn, e):
         guard += 1
         t = e0[0]
         if t == "m":
-            if e0[2] in STRUCT_FIELDS:
+            if e0[2] in STRUCT_FIELDS or e0[2] in PT_FIELDS:
                 fld = e0[2]
             e0 = ir.strip_casts(fn.resolve(e0[1]))
         elif t == "x":
@@ -137,7 +141,7 @@ def node_effects(prog, fn, e, outs, ins):
             elif kinds[v] == "tower":
                 writes.add((v, component(fn, expr) if expr is not None else ("*",)))
             elif allf:
-                for f in STRUCT_FIELDS:
+                for f in (PT_FIELDS if kinds[v] == "point" else STRUCT_FIELDS):
                     writes.add((v, f))
             elif fld is not None:
                 writes.add((v, fld))
@@ -194,6 +198,14 @@ def node_effects(prog, fn, e, outs, ins):
                     rd(v, "*")
                 elif fld == "dp":
                     rd(v, "dp")
+                elif kinds.get(v) == "point":
+                    if fld is not None:
+                        rd(v, fld)
+                    elif not w and v in ins:
+                        callee = prog.get(name, near=fn)
+                        if callee is None or not callee.static:
+                            for f in PT_FIELDS:
+                                rd(v, f)
                 elif fld is None and not w and v in ins and re.match(r"^bn_\w+$", name) and not name.endswith(("_imp", "_low")):
                     callee = prog.get(name, near=fn)
                     lib = getattr(prog, "library", None)
@@ -204,7 +216,7 @@ def node_effects(prog, fn, e, outs, ins):
                             rd(v, f)
     # member reads anywhere in the element (conditions, right-hand sides, arguments)
     for sub in ir.walk(fn, e):
-        if sub[0] == "m" and sub[2] in STRUCT_FIELDS and id(sub) not in lhs_nodes:
+        if sub[0] == "m" and (sub[2] in STRUCT_FIELDS or sub[2] in PT_FIELDS) and id(sub) not in lhs_nodes:
             v, fld = access(fn, sub)
             if v is not None and fld != "dp":
                 rd(v, fld)
@@ -312,3 +324,112 @@ def rule(ctx, prog, chk, in_scope, exceptions, prefix_ok=("selftest",)):
         if npairs and not flagged:
             chk.ok("ALIAS-RW", fn, "pairs", "%d output/input pair(s) of the same type: no input is read in a later statement than a write of the output" % npairs, line=fn.line)
     return n, used
+
+
+# ---------------------------------------------------------------------- OUT-RBW
+POINT_FIELDS = ("x", "y", "z", "t", "coord")
+
+
+def rule_out_rbw(ctx, prog, chk, in_scope, type_re, fields=POINT_FIELDS):
+    """OUT-RBW: in a function with an output structure X and an input structure of the same type, no field of X is read
+    before that field of X was written on every path to the read (must-definition analysis): when output and input are
+    different objects the output holds unspecified data, so such a read is a slip for the input's field"""
+    import collections
+    n = 0
+    for fn in prog.all:
+        if not (in_scope(fn) or "selftest" in fn.file):
+            continue
+
+        def tname(v):
+            t = (fn.vars[v].get("ot") or fn.vars[v].get("t", ""))
+            m = type_re.match(t.replace("const ", ""))
+            return m.group(0) if m else None
+
+        def is_const(v):
+            return fn.vars[v].get("pc") == 1 or (fn.vars[v].get("ot") or "").startswith("const")
+        outs = [v for v in fn.params if tname(v) and not is_const(v)]
+        ins = [v for v in fn.params if tname(v) and is_const(v)]
+        pairs = [(x, y) for x in outs for y in ins if tname(x) == tname(y)]
+        if not pairs:
+            continue
+        g = ctx.xcfg(prog, fn)
+
+        def field_of(e, X):
+            """(field, m-node) if the expression designates (a component of) a field of X"""
+            a = ir.strip_casts(fn.resolve(e))
+            guard = 0
+            while isinstance(a, list) and a and a[0] in ("x", "u") and guard < 10:
+                guard += 1
+                if a[0] == "u" and a[1] not in ("*", "&"):
+                    break
+                a = ir.strip_casts(fn.resolve(a[1] if a[0] == "x" else a[2]))
+            if isinstance(a, list) and a and a[0] == "m" and a[2] in fields and ir.strip_casts(fn.resolve(a[1])) == ["v", X]:
+                return a[2], a
+            return None, None
+
+        def eff(e, X):
+            reads, writes, lhs = set(), set(), set()
+            for sub in ir.walk(fn, e):
+                if sub[0] in ("=", "o="):
+                    f, m = field_of(sub[1] if sub[0] == "=" else sub[2], X)
+                    if f is not None:
+                        writes.add(f)
+                        if sub[0] == "=":
+                            lhs.add(id(m))
+                elif sub[0] == "c" and sub[1]:
+                    for i, a in enumerate(sub[2]):
+                        f, m = field_of(a, X)
+                        aa = ir.strip_casts(fn.resolve(a))
+                        if f is not None:
+                            if ir.arg_is_pointer(sub, i) and engines.callee_writes_arg(prog, fn, sub[1], i):
+                                writes.add(f)
+                                # the same field handed in at another position of the same call is a read
+                                if not any(j != i and key(fn, b) == key(fn, a) for j, b in enumerate(sub[2])):
+                                    lhs.add(id(m))
+                        elif aa == ["v", X] and ir.arg_is_pointer(sub, i) and engines.callee_writes_arg(prog, fn, sub[1], i):
+                            writes.update(fields)
+            for sub in ir.walk(fn, e):
+                if sub[0] == "m" and sub[2] in fields and ir.strip_casts(fn.resolve(sub[1])) == ["v", X] and id(sub) not in lhs:
+                    reads.add(sub[2])
+            return reads, writes
+        for X in sorted(set(x for x, _ in pairs)):
+            state = {g.entry.id: frozenset()}
+            work = collections.deque([g.entry])
+            cache = {}
+            while work:
+                nd = work.popleft()
+                st = state[nd.id]
+                out = st
+                if nd.kind == "el" and not nd.proto:
+                    cache[nd.id] = eff(nd.el.e, X)
+                    out = st | frozenset(cache[nd.id][1])
+                same_on = None
+                if nd.kind == "br":
+                    t = nd.info.get("term")
+                    c = ir.peel(fn, t["c"]) if t and t.get("c") is not None else None
+                    if isinstance(c, list) and c[0] == "b" and c[1] in ("==", "!="):
+                        a, b = ir.strip_casts(fn.resolve(c[2])), ir.strip_casts(fn.resolve(c[3]))
+                        if isinstance(a, list) and isinstance(b, list) and a[0] == "v" and b[0] == "v" and X in (a[1], b[1]) and (a[1] in ins or b[1] in ins):
+                            same_on = "T" if c[1] == "==" else "F"      # the edge on which the output *is* the input
+                for s, l in nd.succ:
+                    o2 = out | frozenset(fields) if (same_on is not None and l == same_on) else out
+                    old = state.get(s.id)
+                    new = o2 if old is None else (old & o2)
+                    if new != old:
+                        state[s.id] = new
+                        work.append(s)
+            n += 1
+            bad = {}
+            for nd in g.nodes:
+                if nd.id in cache and nd.id in state:
+                    r, w = cache[nd.id]
+                    for f in r:
+                        if f not in state[nd.id]:
+                            bad.setdefault(f, nd.line())
+            nm = fn.vars[X]["n"]
+            if bad:
+                for f, line in sorted(bad.items()):
+                    chk.fail("OUT-RBW", fn, "%s.%s" % (nm, f), "`%s->%s` is read at a point where it has not been written on every path: when `%s` is not the input object it holds unspecified data there (a slip for the input's field)" % (nm, f, nm), line=line)
+            else:
+                chk.ok("OUT-RBW", fn, nm, "no field of the output is read before it was written on every path", line=fn.line)
+    return n
